@@ -223,6 +223,15 @@ unsafe fn set_greg(uc: *mut libc::ucontext_t, n: usize, v: u64) {
 
 /// effective address of a ModRM memory operand; returns (ea, bytes consumed after the ModRM byte incl. it)
 unsafe fn modrm_ea(p: *const u8, rex: u8, uc: *mut libc::ucontext_t, next_rip_base: u64, prefix_len: usize) -> Option<(u64, usize)> {
+    // an address-size prefix (0x67) makes the processor compute the effective address in 32 bits
+    let (ea, len) = modrm_ea64(p, rex, uc, next_rip_base, prefix_len)?;
+    Some((if ADDR32.load(Ordering::Relaxed) != 0 { ea & 0xffff_ffff } else { ea }, len))
+}
+
+/// set by `emulate` while it decodes an instruction that carries an address-size prefix
+static ADDR32: AtomicU64 = AtomicU64::new(0);
+
+unsafe fn modrm_ea64(p: *const u8, rex: u8, uc: *mut libc::ucontext_t, next_rip_base: u64, prefix_len: usize) -> Option<(u64, usize)> {
     let modrm = *p;
     let md = modrm >> 6;
     let rm = (modrm & 7) as usize;
@@ -277,6 +286,7 @@ pub unsafe fn emulate(_sig: i32, _code: i32, _addr: u64, uc: *mut libc::ucontext
     let mut i = 0usize;
     let mut opsize = false;
     let mut rex: u8 = 0;
+    ADDR32.store(0, Ordering::Relaxed);
     loop {
         let b = *p.add(i);
         match b {
@@ -284,7 +294,11 @@ pub unsafe fn emulate(_sig: i32, _code: i32, _addr: u64, uc: *mut libc::ucontext
                 opsize = true;
                 i += 1;
             }
-            0xf2 | 0xf3 | 0x2e | 0x36 | 0x3e | 0x26 | 0x64 | 0x65 | 0x67 => i += 1,
+            0x67 => {
+                ADDR32.store(1, Ordering::Relaxed);
+                i += 1;
+            }
+            0xf2 | 0xf3 | 0x2e | 0x36 | 0x3e | 0x26 | 0x64 | 0x65 => i += 1,
             0x40..=0x4f => {
                 rex = b;
                 i += 1;
@@ -450,7 +464,7 @@ pub unsafe fn emulate(_sig: i32, _code: i32, _addr: u64, uc: *mut libc::ucontext
                             len = i + 3;
                         }
                         0xfe => {
-                            push(M_INVLPGB, rax, rcx & 0xffff_ffff, rdx & 0xffff_ffff, rcx, rip);
+                            push(M_INVLPGB, if ADDR32.load(Ordering::Relaxed) != 0 { rax & 0xffff_ffff } else { rax }, rcx & 0xffff_ffff, rdx & 0xffff_ffff, rcx, rip);
                             len = i + 3;
                         }
                         0xff => {
